@@ -98,6 +98,27 @@ def bspline_multi(bs, sdim, trail, ps, ns):
             ref = G.bsp_value(kvs, C, nd); jr = G.bsp_jac(kvs, C, nd)
             c.check(G.eq(R(pe[k], np.shape(ref)), ref), 'pointwise_eval: point k uses the k-th coordinate of every axis')
             c.check(G.eq(R(pj[k], jr.shape), jr), 'pointwise_jacobian: point k uses the k-th coordinate of every axis')
+        if sdim == 2 and trail == ():
+            # a 2 x 2 block of points whose coordinate arrays are NOT C-contiguous (transposed views, one of them a strided slice):
+            # the result must follow the logical index of the arrays, not their memory layout
+            Q = [[[S('q%d_%d%d' % (d, i, j)) for j in range(2)] for i in range(2)] for d in range(sdim)]
+            def noncontig(M, how):
+                a = np.empty((2, 2), dtype=object)
+                for i in range(2):
+                    for j in range(2): a[j, i] = M[i][j]
+                if how == 0: return a.T                      # Fortran-ordered view
+                b = np.empty((2, 4), dtype=object); b[...] = 0
+                for i in range(2):
+                    for j in range(2): b[i, 2 * j] = M[i][j]
+                return b[:, ::2]                             # strided view
+            pts2 = tuple(noncontig(Q[sdim - 1 - cdim], cdim % 2) for cdim in range(sdim))
+            pe2 = f.pointwise_eval(pts2); pj2 = f.pointwise_jacobian(pts2)
+            for i in range(2):
+                for j in range(2):
+                    nd = [Q[d][i][j] for d in range(sdim)]
+                    ref = G.bsp_value(kvs, C, nd); jr = G.bsp_jac(kvs, C, nd)
+                    c.check(G.eq(R(pe2[i, j], np.shape(ref)), ref), 'pointwise_eval on non-contiguous 2-D coordinate arrays: entry (i,j) belongs to point (i,j)')
+                    c.check(G.eq(R(pj2[i, j], jr.shape), jr), 'pointwise_jacobian on non-contiguous 2-D coordinate arrays: entry (i,j) belongs to point (i,j)')
         c.witness('bspline multi')
     return run
 
@@ -611,6 +632,29 @@ def cheb_factory(cS, sS):
     return cheb
 
 
+def arc_dispatch_harness(enc=None, transform=None):
+    """circular_arc(alpha, r): every alpha in (0, 2 pi] (END POINTS INCLUDED) is accepted and handed to a constructor whose
+    precondition it meets (3-point arc only for alpha < pi); everything else is rejected with ValueError.  alpha is a real solver variable,
+    pi the double constant the code uses; the constructors are stubs that record the call."""
+    ns = {'np': SymNP(), 'circular_arc_3pt': lambda a, r=1.0: ('3pt', a, r), 'circular_arc_5pt': lambda a, r=1.0: ('5pt', a, r),
+          'circular_arc_7pt': lambda a, r=1.0: ('7pt', a, r)}
+    srcload.load_defs('pyiga/geometry.py', ['circular_arc'], ns, encoded=enc, transform=transform, closure=False)
+    PI = sx._const(float(np.pi))
+    def run(c):
+        al, r = S('alpha'), S('r')
+        c.assume(r.t > 0)
+        try:
+            res = ns['circular_arc'](al, r)
+        except ValueError:
+            c.check(z3.Or(al.t <= 0, al.t > 2 * PI), 'circular_arc: only angles outside (0, 2 pi] are rejected')
+            c.witness('arc dispatch (rejected)'); return
+        tag, a2, r2 = res
+        c.check(z3.And(al.t > 0, al.t <= 2 * PI, lift(a2) == al.t, lift(r2) == r.t), 'circular_arc: accepted angles lie in (0, 2 pi], angle and radius are handed on unchanged')
+        if tag == '3pt': c.check(al.t < PI, 'circular_arc: the 3-point constructor is only used for alpha < pi (its precondition)')
+        c.witness('arc dispatch')
+    return run
+
+
 def arc_harness(geo, which, m):
     """circular_arc_{3,5,7}pt(alpha, r): alpha = m*theta symbolic, r symbolic > 0, every real t of every span"""
     def run(c):
@@ -744,6 +788,13 @@ if kind in ('bspline_routes', 'nurbs_routes'):
         P = rng.rand(sdim, 2) * 0.9 + 0.05
         pts2 = tuple(P[sdim-1-cd] for cd in range(sdim))
         attempt('pointwise_eval(2 points)', lambda: all(close(f.pointwise_eval(pts2)[k], value(kvs, C, list(P[:, k]))) for k in range(2)))
+        if sdim == 2:
+            Pm = rng.rand(2, 3, 4) * 0.9 + 0.05
+            for lay in ('F', 'strided'):
+                ptsn = tuple((np.asfortranarray(Pm[sdim - 1 - cd]) if lay == 'F' else np.repeat(Pm[sdim - 1 - cd], 2, axis=1)[:, ::2]) for cd in range(sdim))
+                ptsc = tuple(np.ascontiguousarray(a) for a in ptsn)
+                attempt('pointwise_eval (%s layout)' % lay, lambda: close(f.pointwise_eval(ptsn), f.pointwise_eval(ptsc)) and close(f.pointwise_eval(ptsn)[1, 2], value(kvs, C, [Pm[d][1, 2] for d in range(sdim)])))
+                attempt('pointwise_jacobian (%s layout)' % lay, lambda: close(f.pointwise_jacobian(ptsn), f.pointwise_jacobian(ptsc)))
     else:
         dim = w['dim']; scalar = w['scalar']
         Cw = rng.rand(*N) + 0.5; Cv = rng.rand(*(N + (dim,)))
@@ -846,6 +897,17 @@ for alpha in (0.3, 1.0, 2.5, 3.0):
     for fn in (geometry.circular_arc_3pt, geometry.circular_arc_5pt, geometry.circular_arc_7pt):
         a = fn(alpha, 2.0); X = a.grid_eval((np.linspace(0, 1, 23),))
         attempt(fn.__name__, lambda: np.allclose((X**2).sum(-1), 4.0) and close(X[0], [2.0, 0.0]) and close(X[-1], [2 * np.cos(alpha), 2 * np.sin(alpha)]))
+for alpha in (1e-3, 0.3, np.nextafter(np.pi, 0), np.pi, np.nextafter(np.pi, 4), 4.0, np.nextafter(2 * np.pi, 0), 2 * np.pi):
+    def arc_ok(alpha=alpha):
+        a = geometry.circular_arc(alpha, 2.0); X = a.grid_eval((np.linspace(0, 1, 23),))
+        return np.allclose((X**2).sum(-1), 4.0) and close(X[0], [2.0, 0.0]) and np.allclose(X[-1], [2 * np.cos(alpha), 2 * np.sin(alpha)], atol=1e-9)
+    attempt('circular_arc (dispatcher, alpha=%r)' % float(alpha), arc_ok)
+for alpha in (0.0, -1.0, np.nextafter(2 * np.pi, 7), 7.0):
+    def arc_rejected(alpha=alpha):
+        try: geometry.circular_arc(alpha, 1.0)
+        except ValueError: return True
+        return False
+    attempt('circular_arc rejects alpha=%r' % float(alpha), arc_rejected)
 for gname, rad in (('semicircle', 1.5), ('circle', 1.5)):
     X = getattr(geometry, gname)(rad).grid_eval((np.linspace(0, 1, 37),))
     attempt(gname, lambda: np.allclose((X**2).sum(-1), rad**2))
@@ -943,6 +1005,7 @@ def main():
               ('circular_arc_7pt', arc_harness(rgeo, 'circular_arc_7pt', 6))]
         for wname in ('semicircle', 'circle', 'disk', 'disk1', 'quarter_annulus'):
             cj.append((wname, fixed_circle_harness(rgeo, wname)))
+        cj.append(('circular_arc (dispatcher)', arc_dispatch_harness(enc2)))
         for nm, h in cj:
             st = sx.explore(h, timeout_ms=120000, stop_at_first=False, sat_search=True, clear_div=True)
             run.absorb(st, 'circles:' + nm, bound={'t': 'all of [0,1]', 'r': 'all r > 0'}, sample={'obligation': 'circles', 'constructor': nm})
